@@ -1239,4 +1239,184 @@ Proof.
   - unfold abs_repo. rewrite Eids. cbn [flat_map]. rewrite Es. reflexivity.
 Qed.
 
+(* a decidable form of the coupling, for checked instances *)
+Definition flags_are_tallies_b (s : store) : bool :=
+  forallb (fun id => match get_summary s id with
+                     | Some sm => let st := BM.compute_state bc (abs_repo s) (abs_qs s) (asum id sm) in
+                                  eqb (s_just sm) (BM.s_just st) && eqb (s_comm sm) (BM.s_comm st)
+                     | None => true
+                     end) (summary_ids s).
+
+Lemma flags_are_tallies_b_ok s : flags_are_tallies_b s = true -> flags_are_tallies s.
+Proof.
+  intros H id sm E. cbv zeta. cbn [abs BM.n_repo BM.n_eng BM.e_qs].
+  assert (Hs : stored s id = true) by (unfold stored; rewrite E; reflexivity).
+  unfold flags_are_tallies_b in H. rewrite forallb_forall in H. specialize (H id (stored_in_ids s id Hs)).
+  rewrite E in H. cbv zeta in H. apply andb_true_iff in H. destruct H as [H1 H2].
+  apply eqb_prop in H1. apply eqb_prop in H2. split; assumption.
+Qed.
+
+(* ================================================================ from a genesis store: the statements for Properties/C13.v *)
+Section FromGenesis.
+Variable g : blk.
+Hypothesis Hc2 : wf_cfg2 c.
+Hypothesis Hg : c_g c = b_id g.
+Hypothesis Hk : b_skeep g = [].
+Hypothesis Hi : b_ikeep g = [].
+Hypothesis Hj : b_just g = false.
+Hypothesis Hcm : b_comm g = false.
+Hypothesis Hd : D (b_id g).
+
+Definition gnode : BM.node := BM.init_node (ablk g) master.
+
+Lemma genesis_inv2' : Inv2 c (genesis_store g).
+Proof.
+  destruct Hc2 as [[Hn HL0] HL]. destruct c as [L gid]. cbn in Hg. subst gid. apply genesis_inv2; assumption.
+Qed.
+
+(* the node resumed after a crash at any cut of any import: an abstraction-invariant pair with the Bft node that imported
+   the same blocks without interruption; in particular the same best block, finalized block, stored set and quality records *)
+Theorem resumed_is_bft_run hist k i :
+  wf_hist c (genesis_store g) hist -> cut_in_import c (genesis_store g) hist k i -> hist_ok (genesis_store g) gnode hist ->
+  let nd := BN.import_all bc true gnode (map ablk hist) in
+  exists r, resume c true (crash c (genesis_store g) hist k) (skipn i hist) = Some r /\
+    sim r nd /\
+    (exists best, get_id r KBest = Some best /\ BM.n_best nd = tr best) /\
+    BM.e_fin (BM.n_eng nd) = tr (finalized c r) /\
+    (forall id, D id -> BT.known (BM.n_repo nd) (tr id) = stored r id) /\
+    (forall id, D id -> BM.get_q (BM.e_qs (BM.n_eng nd)) (tr id) = get_quality r id).
+Proof.
+  intros Hw Hcut Hh nd. pose proof Hc2 as [Hc _].
+  destruct (resume_sim (genesis_store g) gnode hist k i Hc2 genesis_inv2' Hw Hcut
+              (genesis_sim g Hc Hg Hk Hi Hj Hcm Hd) Hh) as (r & Hr & S).
+  exists r. split; [exact Hr|]. split; [exact S|]. destruct S as [[V Hb F] _ _ _].
+  split; [exact Hb|]. split; [exact F|]. split.
+  - intros id Hdi. apply (view_known r _ _ V id Hdi).
+  - intros id Hdi. apply (v_qs _ _ _ V id Hdi).
+Qed.
+
+(* the uninterrupted run and the abstraction function: abs of the store after the history is the Bft node after the history *)
+Theorem abs_of_run_is_bft_run hist : hist_ok (genesis_store g) gnode hist ->
+  let s := run c (genesis_store g) hist in
+  let nd := BN.import_all bc true gnode (map ablk hist) in
+  refines s (abs s) /\ flags_are_tallies s /\
+  BM.n_repo (abs s) = BM.n_repo nd /\ BM.n_best (abs s) = BM.n_best nd /\
+  BM.e_fin (BM.n_eng (abs s)) = BM.e_fin (BM.n_eng nd) /\
+  (forall i, D i -> BM.get_q (BM.e_qs (BM.n_eng (abs s))) (tr i) = BM.get_q (BM.e_qs (BM.n_eng nd)) (tr i)).
+Proof.
+  intros Hh s nd. pose proof Hc2 as [Hc _]. apply absim_abs.
+  apply (abs_run hist _ _ Hc (genesis_absim g Hc Hg Hk Hi Hj Hcm Hd) Hh).
+Qed.
+
+(* C04 stored_quality_is_from_scratch on every resumed node *)
+Theorem resumed_quality_from_scratch hist k i :
+  wf_hist c (genesis_store g) hist -> cut_in_import c (genesis_store g) hist k i -> hist_ok (genesis_store g) gnode hist ->
+  let nd := BN.import_all bc true gnode (map ablk hist) in
+  exists r, resume c true (crash c (genesis_store g) hist k) (skipn i hist) = Some r /\
+    forall id sm, get_summary r id = Some sm ->
+      quality_of c r (s_parent sm) (num_of id) (s_just sm) = Some (BC.quality_pure bc (BT.chain_of (BM.n_repo nd) (tr id))) /\
+      (is_storepoint (c_L c) (num_of id) = true ->
+       get_quality r id = BC.quality_pure bc (BT.chain_of (BM.n_repo nd) (tr id))).
+Proof.
+  intros Hw Hcut Hh nd. pose proof Hc2 as [Hc _].
+  destruct (resumed_is_bft_run hist k i Hw Hcut Hh) as (r & Hr & S & _). exists r. split; [exact Hr|].
+  intros id sm E. exact (sim_quality_from_scratch r _ id sm Hc S E).
+Qed.
+
+(* C03 finalized_monotone on every resumed node: along the history every finalized value of the Bft node has its predecessor
+   on its chain, these values are the crash model's finalized blocks, and the resumed node holds the last of them *)
+Lemma last_cons_default {A} (l : list A) : forall x d, last (x :: l) d = last l x.
+Proof.
+  induction l as [|y l IH]; intros x d; [reflexivity|].
+  change (last (x :: y :: l) d) with (last (y :: l) d). rewrite !IH. reflexivity.
+Qed.
+
+Lemma run_finalized_last l : forall s, finalized c (run c s l) = last (cfin_trace s l) (finalized c s).
+Proof.
+  induction l as [|b t IH]; intros s; [reflexivity|].
+  change (run c s (b :: t)) with (run c (run1 c s b) t). cbn [cfin_trace]. rewrite IH, last_cons_default. reflexivity.
+Qed.
+
+Theorem resumed_finalized_monotone hist k i :
+  wf_hist c (genesis_store g) hist -> cut_in_import c (genesis_store g) hist k i -> hist_ok (genesis_store g) gnode hist ->
+  exists r, resume c true (crash c (genesis_store g) hist k) (skipn i hist) = Some r /\
+    BMo.monotone_from (tr (b_id g)) (BMo.fin_trace bc true gnode (map ablk hist)) /\
+    map snd (BMo.fin_trace bc true gnode (map ablk hist)) = map tr (cfin_trace (genesis_store g) hist) /\
+    finalized c r = last (cfin_trace (genesis_store g) hist) (b_id g).
+Proof.
+  intros Hw Hcut Hh. pose proof Hc2 as [Hc _].
+  pose proof (genesis_sim g Hc Hg Hk Hi Hj Hcm Hd) as S0.
+  destruct (resume_converges c _ hist k i Hc2 genesis_inv2' Hw Hcut) as (r & Hr & He).
+  destruct (run_fin_trace hist _ _ Hc S0 Hh) as [M E].
+  assert (F0 : finalized c (genesis_store g) = b_id g).
+  { pose proof (rf_fin _ _ (sim_ref _ _ S0)) as F. cbn in F.
+    apply (tr_inj _ _ Hd (v_dom _ _ _ (rf_view _ _ (sim_ref _ _ S0)) _
+             (finalized_stored c _ Hc (v_inv _ _ _ (rf_view _ _ (sim_ref _ _ S0)))))) in F. symmetry. exact F. }
+  rewrite F0 in M. exists r. split; [exact Hr|]. split; [exact M|]. split; [exact E|].
+  rewrite (na_finalized _ _ (eqv_eqv_na _ _ He)), run_finalized_last, F0. reflexivity.
+Qed.
+
+(* C04 finalized_is_function_of_set / import_set_order_independent on resumed nodes: two nodes run two histories (any
+   orders, duplicates, refused blocks), each crashes at any cut, restarts and resumes; over a consistent block tree, if
+   they end up holding the same blocks they hold the same best block, the same finalized block, the same quality records;
+   and each one's finalized block is fin_char of its stored set *)
+Theorem resumed_function_of_set U h1 k1 i1 h2 k2 i2 :
+  BO3.tree_consistent bc U -> In (ablk g) U ->
+  (forall b, In b h1 \/ In b h2 -> In (ablk b) U) ->
+  wf_hist c (genesis_store g) h1 -> cut_in_import c (genesis_store g) h1 k1 i1 -> hist_ok (genesis_store g) gnode h1 ->
+  wf_hist c (genesis_store g) h2 -> cut_in_import c (genesis_store g) h2 k2 i2 -> hist_ok (genesis_store g) gnode h2 ->
+  exists r1 r2,
+    resume c true (crash c (genesis_store g) h1 k1) (skipn i1 h1) = Some r1 /\
+    resume c true (crash c (genesis_store g) h2 k2) (skipn i2 h2) = Some r2 /\
+    BO.fin_char bc (BM.n_repo (BN.import_all bc true gnode (map ablk h1))) (tr (finalized c r1)) /\
+    BO.fin_char bc (BM.n_repo (BN.import_all bc true gnode (map ablk h2))) (tr (finalized c r2)) /\
+    ((forall id, option_map (asum id) (get_summary r1 id) = option_map (asum id) (get_summary r2 id)) ->
+     get_id r1 KBest = get_id r2 KBest /\ finalized c r1 = finalized c r2 /\
+     (forall id, stored r1 id = true -> is_storepoint (c_L c) (num_of id) = true -> get_quality r1 id = get_quality r2 id)).
+Proof.
+  intros HU HgU HinU Hw1 Hcut1 Hh1 Hw2 Hcut2 Hh2. pose proof Hc2 as [Hc _].
+  pose proof (genesis_sim g Hc Hg Hk Hi Hj Hcm Hd) as S0.
+  assert (HnB : BT.b_num (ablk g) = 0).
+  { unfold BT.b_num. cbn. rewrite (tr_num _ Hd). destruct Hc as [Hn _]. rewrite Hg in Hn. exact Hn. }
+  pose proof (BO3.init_ok bc (HLb Hc) U (ablk g) master HnB HgU) as Ok0.
+  destruct (resumed_is_bft_run h1 k1 i1 Hw1 Hcut1 Hh1) as (r1 & Hr1 & S1 & _).
+  destruct (resumed_is_bft_run h2 k2 i2 Hw2 Hcut2 Hh2) as (r2 & Hr2 & S2 & _).
+  pose proof (run_node_ok U h1 _ _ Hc HU S0 Hh1 Ok0 (fun b Hb => HinU b (or_introl Hb))) as Ok1.
+  pose proof (run_node_ok U h2 _ _ Hc HU S0 Hh2 Ok0 (fun b Hb => HinU b (or_intror Hb))) as Ok2.
+  exists r1, r2. split; [exact Hr1|]. split; [exact Hr2|]. split; [|split].
+  - rewrite <- (rf_fin _ _ (sim_ref _ _ S1)). exact (proj1 (proj2 Ok1)).
+  - rewrite <- (rf_fin _ _ (sim_ref _ _ S2)). exact (proj1 (proj2 Ok2)).
+  - intros Hsame. exact (sim_function_of_set U r1 _ r2 _ Hc HU S1 S2 Ok1 Ok2 Hsame).
+Qed.
+End FromGenesis.
+
 End Bridge.
+
+(* ================================================================ an instance of the id bridge *)
+(* ids whose low 224 bits are below 2^32 (the ids of Crash/Examples.v): number * 2^32 + the low bits.  For an arbitrary finite
+   set of 32-byte ids the C04 harness computes the rank of each id among the ids of the same number instead; any such ranking
+   satisfies the two hypotheses on the set. *)
+Definition P224 : N := 26959946667150639794667015087019630673637144422540572481103610249216.
+Definition small (id : N) : Prop := id mod P224 < BT.id_shift.
+Definition tr_small (id : N) : N := num_of id * BT.id_shift + id mod P224.
+
+Lemma lex_lt (B n1 r1 n2 r2 : N) : r1 < B -> r2 < B -> (n1 * B + r1 <? n2 * B + r2) = ((n1 <? n2) || ((n1 =? n2) && (r1 <? r2))).
+Proof. intros H1 H2. destruct (N.ltb_spec n1 n2), (N.eqb_spec n1 n2), (N.ltb_spec r1 r2), (N.ltb_spec (n1 * B + r1) (n2 * B + r2)); cbn; try reflexivity; nia. Qed.
+
+Lemma tr_small_num a : small a -> BT.idnum (tr_small a) = num_of a.
+Proof.
+  intros H. unfold BT.idnum, tr_small. rewrite N.div_add_l by discriminate. rewrite (N.div_small _ _ H). apply N.add_0_r.
+Qed.
+
+Lemma tr_small_lt a b : small a -> small b -> (tr_small a <? tr_small b) = (a <? b).
+Proof.
+  intros Ha Hb. unfold tr_small, small in *.
+  assert (HS : BT.id_shift < P224) by reflexivity.
+  assert (HP : P224 <> 0) by discriminate.
+  pose proof (N.div_mod a P224 HP) as Ea. pose proof (N.div_mod b P224 HP) as Eb.
+  change (num_of a) with (a / P224). change (num_of b) with (b / P224).
+  set (na := a / P224) in *. set (ra := a mod P224) in *. set (nb := b / P224) in *. set (rb := b mod P224) in *.
+  assert (E : (a <? b) = (na * P224 + ra <? nb * P224 + rb)).
+  { f_equal; [rewrite (N.mul_comm na); exact Ea | rewrite (N.mul_comm nb); exact Eb]. }
+  rewrite E, (lex_lt BT.id_shift _ _ _ _ Ha Hb), (lex_lt P224) by lia. reflexivity.
+Qed.
